@@ -529,14 +529,17 @@ CO_ERR COCSdoResponse(CO_CSDO *csdo)
             COCSdoAbort(csdo, CO_SDO_ERR_CMD);
             COCSdoTransferFinalize(csdo);
         }
-    } else if (cmd == 0x60u) {
+    } else if ((csdo->Tfer.Type == CO_CSDO_TRANSFER_DOWNLOAD) &&
+               (cmd == 0x60u)) {
         result = COCSdoDownloadExpedited(csdo);
         return (result);
-    } else if ((cmd & 0x43u) != 0u) {
+    } else if ((csdo->Tfer.Type == CO_CSDO_TRANSFER_UPLOAD) &&
+               ((cmd & 0xE0u) == 0x40u)) {
         result = COCSdoUploadExpedited(csdo);
         return (result);
     } else {
-        COCSdoAbort(csdo, CO_SDO_ERR_PARA_INCOMP);
+        COCSdoAbort(csdo, CO_SDO_ERR_CMD);
+        COCSdoTransferFinalize(csdo);
     }
     
     return (result);
